@@ -4,6 +4,7 @@ package main
 
 import (
 	"go/types"
+	"sort"
 	"strings"
 
 	"golang.org/x/tools/go/ssa"
@@ -60,6 +61,50 @@ func findMapOrderSinks(fn *ssa.Function) []MapOrderSink {
 		if header == nil {
 			continue
 		}
+		out = append(out, orderSinksInLoop(fn, r, blocks)...)
+	}
+	return out
+}
+
+// findListOrderSinks: the same sinks inside loops over the Items of an API list object. A List served by the
+// controller-runtime cache through a field index returns objects in the iteration order of a Go map
+// (client-go threadSafeMap.ByIndex), so the order of Items is as unspecified as a map's.
+func findListOrderSinks(fn *ssa.Function) []MapOrderSink {
+	var out []MapOrderSink
+	seen := map[*ssa.BasicBlock]bool{}
+	for _, b := range fn.Blocks {
+		for _, in := range b.Instrs {
+			ia, ok := in.(*ssa.IndexAddr)
+			if !ok {
+				continue
+			}
+			t := termOf(ia.X)
+			if t.lastField() != "Items" {
+				continue
+			}
+			if !isLoopIndex(ia.Index) {
+				continue
+			}
+			h := loopHeaderOf(b)
+			if h == nil || seen[h] {
+				continue
+			}
+			seen[h] = true
+			blocks := map[*ssa.BasicBlock]bool{}
+			for _, x := range fn.Blocks {
+				if h.Dominates(x) && (x == h || reachesWithin(x, h, h) || hasBackEdgeTo(x, h)) {
+					blocks[x] = true
+				}
+			}
+			out = append(out, orderSinksInLoop(fn, nil, blocks)...)
+		}
+	}
+	return out
+}
+
+func orderSinksInLoop(fn *ssa.Function, r *ssa.Range, blocks map[*ssa.BasicBlock]bool) []MapOrderSink {
+	var out []MapOrderSink
+	{
 		for b := range blocks {
 			for _, in := range b.Instrs {
 				call, ok := in.(*ssa.Call)
@@ -98,6 +143,7 @@ func findMapOrderSinks(fn *ssa.Function) []MapOrderSink {
 			}
 		}
 	}
+	sort.Slice(out, func(i, j int) bool { return out[i].Sink.Pos() < out[j].Sink.Pos() })
 	return out
 }
 
@@ -161,6 +207,34 @@ func derivesFromValue(v ssa.Value, src ssa.Value, depth int) bool {
 				}
 			}
 		}
+		// load of a field the appended value was stored to (same access path, same function)
+		if fa, ok := x.X.(*ssa.FieldAddr); ok && x.Parent() != nil {
+			key := termOf(fa).String()
+			for _, b := range x.Parent().Blocks {
+				for _, in := range b.Instrs {
+					st, ok := in.(*ssa.Store)
+					if !ok {
+						continue
+					}
+					if fa2, ok := st.Addr.(*ssa.FieldAddr); ok && termOf(fa2).String() == key && derivesFromValue(st.Val, src, depth-1) {
+						return true
+					}
+				}
+			}
+		}
+	}
+	return false
+}
+
+// isLoopIndex: the index of a range-over-slice loop (the phi, or phi+1 in the rotated form).
+func isLoopIndex(v ssa.Value) bool {
+	switch x := v.(type) {
+	case *ssa.Phi:
+		return true
+	case *ssa.BinOp:
+		_, a := x.X.(*ssa.Phi)
+		_, b := x.Y.(*ssa.Phi)
+		return a || b
 	}
 	return false
 }
